@@ -48,7 +48,7 @@ def run(ctx):
     except Exception as ex:
         ctx.oblige(TR, False, repr(ex))
     common.lean_obligations(ctx, ["Props.C03", "Sympler.Expr", "symdrv"], ["Props.C03"], THEOREMS, MODULES)
-    n, depth, exk, exs, mal = (150, 4, 2, 80, 40) if not ctx.thorough else (3000, 5, 3, 0, 400)
+    n, depth, exk, exs, mal = (150, 4, 2, 80, 40) if not ctx.thorough else (2500, 5, 3, 12000, 250)
     work = os.path.join(common.WORK, "c03-%d" % os.getpid())
     os.makedirs(work, exist_ok=True)
     prefix = os.path.join(work, "t")
